@@ -34,7 +34,7 @@ from vlib.sparsestub import patched_scipy
 from vlib.framework import Run, proved, violated, undecided, held
 from checks.c10 import p1_vertex_spec, DI as DI10
 
-DI = dict(DI10, cube12=[1, 1, 2, 2, 3, 3, 1, 1, 2, 2, 3, 3], torus33=[1 + (i % 3 == 0) for i in range(18)], screen3=[1 + (i % 5 in (0, 1)) + (i > 12) for i in range(18)])
+DI = dict(DI10, two_tets_face=[1, 1, 1, 3, 2, 2, 2], cube12=[1, 1, 2, 2, 3, 3, 1, 1, 2, 2, 3, 3], torus33=[1 + (i % 3 == 0) for i in range(18)], screen3=[1 + (i % 5 in (0, 1)) + (i > 12) for i in range(18)])
 
 
 def _grid(mesh, perturb=None):
@@ -106,6 +106,26 @@ def _traces(sp, g, grid, E, k, A, B, t, kind):
     return out
 
 
+def _edge_pairs(grid, sp, kind):
+    """pairs of (element, local edge) occurrences to compare on each edge.  Manifold edge: its two neighbours.  Edge with more than two neighbours
+    (non-manifold fan, multitrace junction): P1 - every pair; edge spaces - the two neighbours inside the support (a junction edge belongs to one
+    surface at a time), or one supported and one unsupported neighbour for the vanishing-trace clause."""
+    pairs = []
+    for edge, occ in BC.edge_table(grid).items():
+        if len(occ) < 2:
+            continue
+        if len(occ) == 2 or kind == "P":
+            pairs += [(edge, o0, o1) for o0, o1 in itertools.combinations(occ, 2)]
+            continue
+        sup = [o for o in occ if sp.support[o[0]]]
+        out = [o for o in occ if not sp.support[o[0]]]
+        if len(sup) == 2:
+            pairs.append((edge, sup[0], sup[1]))
+        elif len(sup) == 1 and out:
+            pairs.append((edge, sup[0], out[0]))
+    return pairs
+
+
 def replay_conformity(mesh, spec, seed=2):
     """numeric replay of the jump of every basis function across every edge with two neighbours, on a perturbed geometry"""
     import bempp_cl.api as api
@@ -121,10 +141,7 @@ def replay_conformity(mesh, spec, seed=2):
         _vertices = grid.vertices
         _integration_elements = grid.integration_elements
 
-    for edge, occ in BC.edge_table(grid).items():
-        if len(occ) != 2:
-            continue
-        (E0, k0), (E1, k1) = occ
+    for edge, (E0, k0), (E1, k1) in _edge_pairs(grid, sp, kind):
         A, B = int(grid.edges[0, edge]), int(grid.edges[1, edge])
         s0, s1 = bool(sp.support[E0]), bool(sp.support[E1])
         if not (s0 or s1) or ((s0 != s1) and ib and tr):
@@ -151,10 +168,7 @@ def ob_conformity(mesh, spec):
     n = 0
     with patched(MX), patched(SC):
         sp = PL.make_space(grid, spec)
-        pairs = []
-        for edge, occ in BC.edge_table(grid).items():
-            if len(occ) == 2 or (kind == "P" and len(occ) > 2):
-                pairs += [(edge, o0, o1) for o0, o1 in itertools.combinations(occ, 2)]
+        pairs = _edge_pairs(grid, sp, kind)
         for edge, (E0, k0), (E1, k1) in pairs:
             A, B = int(grid.edges[0, edge]), int(grid.edges[1, edge])
             s0, s1 = bool(sp.support[E0]), bool(sp.support[E1])
@@ -253,13 +267,13 @@ def replay_bc(mesh, kind, seed, sub=None):
 
     tk = "RWG" if kind == "BC" else "SNC"
     for edge, occ in BC.edge_table(bary).items():
+        # BC / RBC spaces are truncated at the segment edge by default: only edges inside the support are constrained (on a non-manifold grid an
+        # edge may have further neighbours outside the support)
+        occ = [o for o in occ if sp.support[o[0]]]
         if len(occ) != 2:
             continue
         (E0, k0), (E1, k1) = occ
-        s0, s1 = bool(sp.support[E0]), bool(sp.support[E1])
-        if not (s0 and s1):
-            # BC / RBC spaces are truncated at the segment edge by default: only edges inside the support are constrained
-            continue
+        s0 = s1 = True
         A, B = int(bary.edges[0, edge]), int(bary.edges[1, edge])
         for t in (0.15, 0.8):
             tr0 = _traces(sp, G, bary, E0, k0, A, B, t, tk) if s0 else {}
@@ -298,13 +312,19 @@ def rwg_edge_spec(grid, support, ib, tr):
         sup = [E for E, _ in occ if support[E]]
         if not sup:
             continue
-        if len(occ) == 2 and len(sup) == 2:
+        if len(sup) == 2:
             edges.add(edge)
-        elif ib and len(occ) <= 2:
+        elif ib and len(sup) == 1:
             edges.add(edge)
+        elif len(sup) > 2:
+            raise NotImplementedError("edge %d has %d neighbours inside the segment: edge functions undefined" % (edge, len(sup)))
     final = np.array(support, dtype=bool).copy()
     if ib and not tr:
+        if max(len(o) for o in nb.values()) > 2 and not all(support):
+            raise NotImplementedError("extension of boundary functions beyond a segment of a non-manifold grid is ambiguous at junction edges")
         for edge in edges:
+            if len([E for E, _ in nb[edge] if support[E]]) != 1:
+                continue          # only functions on the segment boundary are extended
             for E, _ in nb[edge]:
                 final[E] = True
     for E in range(ne):
@@ -467,8 +487,8 @@ def ob_dofmap(mesh, kind, deg, thorough):
     v, e = PL._mesh(mesh)
     ne = np.asarray(e).shape[1]
     manifold = max(len(o) for o in BC.edge_table(SG.make_grid(v, e)).values()) <= 2
-    if kind in ("RWG", "SNC", "BC", "RBC") and not manifold:
-        return held("not applicable: non-manifold mesh (edge functions undefined)")
+    if kind in ("BC", "RBC") and not manifold:
+        return held("not applicable: non-manifold mesh (dof-map contract of BC / RBC only on manifold grids; conformity on a closed segment is checked separately)")
     n, out, empties = 0, [], []
     for sub in [None] + BC.subsets(ne, 60 if thorough else 14, seed=9):
         for ib, tr in itertools.product((False, True), (False, True)):
@@ -478,6 +498,8 @@ def ob_dofmap(mesh, kind, deg, thorough):
                 continue
             try:
                 r = replay_dofmap(mesh, kind, deg, sub, ib, tr)
+            except NotImplementedError:
+                continue          # edge functions undefined for this selection on a non-manifold grid (three supported neighbours / ambiguous extension)
             except ValueError as ex:
                 if "not implemented" in str(ex):
                     continue
@@ -531,7 +553,11 @@ def main():
             ("tetra", ("RWG", 0, {"segments": [2], "include_boundary_dofs": True, "truncate_at_segment_edge": False})),
             ("tetra", ("SNC", 0, {"segments": [1], "include_boundary_dofs": False})),
             ("screen2", ("P", 1, {"segments": [1, 2]})), ("screen2", ("RWG", 0, {"segments": [2], "include_boundary_dofs": True, "truncate_at_segment_edge": True})),
-            ("tetra", ("SNC", 0, {"swapped_normals": [1, 2]})), ("tetra", ("RWG", 0, {"swapped_normals": [1, 2]}))]
+            ("tetra", ("SNC", 0, {"swapped_normals": [1, 2]})), ("tetra", ("RWG", 0, {"swapped_normals": [1, 2]})),
+            # multitrace-like grid (two tetrahedra sharing face 3, junction edges with three faces): the two closed sub-surfaces and the shared face
+            ("two_tets_face", ("RWG", 0, {"segments": [1, 3]})), ("two_tets_face", ("RWG", 0, {"segments": [2, 3]})), ("two_tets_face", ("SNC", 0, {"segments": [2, 3], "swapped_normals": [3]})),
+            ("two_tets_face", ("RWG", 0, {"segments": [2, 3], "swapped_normals": [3]})), ("two_tets_face", ("P", 1, {"segments": [2, 3], "include_boundary_dofs": True})),
+            ("two_tets_face", ("RWG", 0, {"segments": [2], "include_boundary_dofs": True}))]
     if thorough:
         conf += [("octa", ("P", 1, {})), ("octa", ("RWG", 0, {})), ("octa", ("SNC", 0, {})), ("octa", ("P", 1, {"segments": [2], "include_boundary_dofs": True, "truncate_at_segment_edge": False}))]
     for mesh, spec in conf:
@@ -546,15 +572,19 @@ def main():
         for kind in ("BC", "RBC"):
             for seed in (1, 2) if thorough else (1,):
                 run.add("bc-conformity[%s %s seed=%d]" % (mesh, kind, seed), "bounded", ob_bc, mesh, kind, seed)
+    for kind in ("BC", "RBC"):
+        run.add("bc-conformity[two tetrahedra sharing a face, closed segment, %s]" % kind, "bounded", ob_bc, "two_tets_face", kind, 4, [0, 1, 2, 3])
     run.add("bc-conformity[octa BC segment]", "bounded", ob_bc, "octa", "BC", 3, [0, 1, 2, 3])
     run.add("bc-conformity[octa RBC segment]", "bounded", ob_bc, "octa", "RBC", 3, [0, 1, 2, 3])
-    for mesh in ["tetra", "octa", "screen2", "fan3", "torus33"] + (["cube12", "screen3"] if thorough else []):
+    for mesh in ["tetra", "octa", "screen2", "fan3", "torus33", "two_tets_face"] + (["cube12", "screen3"] if thorough else []):
         for kind, deg in KINDS:
             run.add("dof-map[%s,%s%d]" % (mesh, kind, deg), "bounded", ob_dofmap, mesh, kind, deg, thorough)
     run.bound("conformity / partition of unity: symbolic geometry on the topologies listed in the obligation names")
     run.bound("dof maps: tetrahedron, octahedron, 2x2 screen, non-manifold fan, 3x3 torus (genus 1) [thorough: cube, 3x3 screen] x supports (all when few, else a fixed random sample) "
               "x the four option combinations")
     run.bound("BC / RBC conformity: perturbed tetrahedron and octahedron (thorough: cube, torus), two points per barycentric edge")
+    run.assume("on the multitrace-like grid the shared face is oriented outward for the first tetrahedron; the second closed surface is consistently oriented only with "
+               "swapped_normals on that face, which is how SNC (= n x RWG) is exercised there")
     run.assume("swapped normals are exercised for whole-grid swaps only: between a swapped and a non-swapped domain of one connected surface the orientation is inconsistent and "
                "SNC = n x RWG cannot be tangentially continuous")
     run.assume("the documented meaning of the options used as specification: P1 dofs = vertices of the segment (interior ones only unless include_boundary_dofs); RWG/SNC dofs = edges "
